@@ -31,3 +31,76 @@ def _ser_compressed(ex, args, ins, where):
         ex.add(z3.Or(b0 == 2, b0 == 3))
     vs = [b0] + [ex.fresh('secp.SerializeCompressed', 8) for _ in range(32)]
     return ex.mkslice(vs)
+
+
+# ------------------------------------------------------------------ strings.Builder / strings helpers
+def _sb_buf(ex, p, where):
+    st = ex.load(p, where, None)
+    return st[1]
+
+
+def _sb_set(ex, p, sl):
+    ex.heap[p.obj] = ex._replace(ex.heap[p.obj], p.path + (1,), sl)
+
+
+@prefix_intrinsic('(*strings.Builder).')
+def _strings_builder(ex, fname, args, ins, where):
+    m = fname[len('(*strings.Builder).'):]
+    p = args[0]
+    if p is NIL:
+        raise PathEnd('panic', 'nil *strings.Builder ' + where)
+    buf = _sb_buf(ex, p, where)
+    cur = ex.slice_elems(buf) if buf is not NIL else []
+    if m == 'Grow':
+        return None
+    if m == 'WriteByte':
+        _sb_set(ex, p, ex.mkslice(cur + [args[1]]))
+        return NIL
+    if m == 'WriteString':
+        s = args[1]
+        if isinstance(s, Opaque):
+            raise Unsupported('Builder.WriteString(opaque)')
+        bs = str_bytes(s)
+        _sb_set(ex, p, ex.mkslice(cur + bs))
+        return [len(bs), NIL]
+    if m == 'Write':
+        bs = ex.slice_elems(args[1])
+        _sb_set(ex, p, ex.mkslice(cur + bs))
+        return [len(bs), NIL]
+    if m == 'WriteRune':
+        r = args[1]
+        if is_sym(r) or r >= 0x80:
+            raise Unsupported('Builder.WriteRune non-ASCII')
+        _sb_set(ex, p, ex.mkslice(cur + [r]))
+        return [1, NIL]
+    if m == 'String':
+        return mkstr(cur)
+    if m == 'Len':
+        return len(cur)
+    if m == 'Reset':
+        _sb_set(ex, p, NIL)
+        return None
+    return NotImplemented
+
+
+def _index_byte_merged(ex, hay, c):
+    """IndexByte over a haystack with a symbolic needle: one ite chain when the haystack is concrete"""
+    if all(not is_sym(b) for b in hay) and is_sym(c):
+        r = z3.BitVecVal(mask(-1, 64), 64)
+        for i in range(len(hay) - 1, -1, -1):
+            r = z3.If(c == z3.BitVecVal(hay[i], 8), z3.BitVecVal(i, 64), r)
+        return r
+    for i, b in enumerate(hay):
+        if ex.branch(ex.equal(b, c, ex.t_uint8), 'IndexByte'):
+            return i
+    return mask(-1, 64)
+
+
+@intrinsic('strings.IndexByte', 'internal/bytealg.IndexByteString')
+def _sindexbyte2(ex, args, ins, where):
+    return _index_byte_merged(ex, str_bytes(args[0]), args[1])
+
+
+@intrinsic('bytes.IndexByte', 'internal/bytealg.IndexByte')
+def _bindexbyte2(ex, args, ins, where):
+    return _index_byte_merged(ex, ex.slice_elems(args[0]), args[1])
